@@ -58,6 +58,13 @@ try:
     call("captured-wire-returned-again", again, lambda y: [y, 144], [2])
     three = lambda a, b: [a + b, [a * b, a + b], (a, b)]
     call("shared-subresult", lambda a, b: (lambda s_: [s_, [a * b, s_], (a, b)])(a + b), three, [4, 6])
+    # nested structures of every kind in arguments and results: dict in dict, list in dict in tuple, dict in list
+    area = lambda d: d["size"]["w"] * d["size"]["h"] + d["pad"]
+    call("dict-in-dict", area, area, [{"size": {"w": 6, "h": 7}, "pad": 1}])
+    deep = lambda t: t[0]["a"][1] * t[1][0]["b"] + t[0]["a"][0]
+    call("list-in-dict-in-tuple", deep, deep, [({"a": [2, 3]}, [{"b": 5}])])
+    nres = lambda a, b: {"res": {"prod": a * b, "sum": a + b}, "pair": [a, (b, {"k": a + 1})]}
+    call("nested-results", nres, nres, [4, 9])
     # keyword arguments are refused
     try:
         snark(lambda x, k=1: x)(3, k=2)
